@@ -157,7 +157,8 @@ def rule_geometry_point_from_box_solver(eng, rep, rule="C13-6.geometry-point-is-
             ds = cfg.ast_of(dn)
             okd = False
             if isinstance(ds, ast.Assign) and isinstance(ds.value, ast.Call) and any(t.fid == "trust_region.trsbox_linear" for t in eng.res.calls[id(ds.value)].targets):
-                a = ds.value.args
+                from .common import expand_locals
+                a = [expand_locals(cfg, ds, x) for x in ds.value.args]        # (`s_lower = lower - xbase` computed once and passed twice is the same thing)
                 okd = len(a) >= 4 and ekey(a[1]).replace(" ", "") == "%s-%s" % (lower, centre) and ekey(a[2]).replace(" ", "") == "%s-%s" % (upper, centre) and ekey(a[3]) == radius
             if not okd:
                 bad = ds
